@@ -25,6 +25,8 @@ class Loader:
         if config not in self.cache:
             try:
                 self.cache[config] = factsmod.Facts(config)
+                import rename
+                rename.align(self.cache[config], config, note=self.run.note)
             except factsmod.ExtractionError as e:
                 if not optional:
                     raise
